@@ -12,3 +12,8 @@ func join(sep string) string {
 func join2(a string, b string) string {
 	return a + b + ``
 }
+
+func greet(name string) string {
+	fmt.Println(name, "héllo")
+	return join2(name, "¿ÿ")
+}
